@@ -160,7 +160,7 @@ def canonical_lines(r, n):
 
 def mutated(r, line):
     """one symbol inserted / deleted / substituted (or a field dropped / a kind of another section)"""
-    alphabet = list(" \t0123456789=NSEBAT\"[]{}-x") + list(NONASCII_DIGITS) + ODD_WS
+    alphabet = list(" \t0123456789=NSEBAT\"[]{}-x_+.e") + list(NONASCII_DIGITS) + ODD_WS
     s = list(line)
     op = r.random()
     pos = r.randrange(len(s) + 1)
@@ -181,7 +181,7 @@ def run(ctx):
     lines = canonical_lines(r, ctx.pick(1500, 30000))
     base = ["0 = N 0 0", "192 = N 7 100", "  10 = S 2 5", "5 = E solo", "\t768 = E soloend  "]
     edits = []
-    alphabet = list(" \t0123456789=NSEBAT\"[]{}-x") + list(NONASCII_DIGITS) + ODD_WS
+    alphabet = list(" \t0123456789=NSEBAT\"[]{}-x_+.e") + list(NONASCII_DIGITS) + ODD_WS
     for b in base:
         for pos in range(len(b) + 1):
             for c in alphabet:
